@@ -1,1 +1,266 @@
-/-! C07 - property theorems (declared with their full name `C07.<name>`; helper lemmas go to Lemmas/) -/
+import CohdlVerif.Lemmas.C07Lemmas
+
+/-! C07 - property theorems (declared with their full name `C07.<name>`; helper lemmas are in Lemmas/C07Lemmas).
+
+  Model (Model/C07.lean): `checkUsage fixed d` mirrors the usage check of `EntityTemplate.__init__`
+  (`fixed = true`: the tree with fixes/C07-*.patch, `fixed = false`: the tree before), `accept` adds the front-end
+  rules, `emit d` lists the driver units the back end prints (process per sequential context, concurrent block
+  per concurrent context, the always block of a sequential context as a separate concurrent block, one port map
+  per instance), `drivers e r` / `users e r` count the units that drive / reference root `r`.
+
+  * `C07.checkUsage_ok_iff`          accepted <-> no input port written / driven, no two distinct write occurrences of
+                                     one root by different writers (or involving an instance output), no variable /
+                                     temporary used by two different contexts - for ALL designs (both mirrors).
+  * `C07.accepted_unique_driver`     (fixed tree) accepted -> every root has <= 1 driver unit in the emitted architecture.
+  * `C07.accepted_unique_driver_fails_at`  the same statement is FALSE for the mirror of the unpatched tree (witness:
+                                     a signal assigned in `with cohdl.always:` and in the body of the same context).
+  * `C07.variables_stay_in_process`  (fixed tree) accepted -> a variable is referenced by <= 1 unit, and that unit is the
+                                     process of a sequential context (never a concurrent block, always block, port map).
+-/
+open CohdlVerif.C07
+
+namespace CohdlVerif.C07
+
+/-- every write occurrence `(root, writer)`: accesses of the contexts, then instance outputs -/
+def writeEvents (fixed : Bool) (d : Design) : List (Nat × Owner) :=
+  wEv (ctxsEvents fixed 0 d.ctxs) ++ (instOuts 0 d.insts).map (fun e => (e.2, e.1))
+
+/-- every occurrence `(root, user)` of a variable / temporary in a context -/
+def useEvents (fixed : Bool) (d : Design) : List (Nat × Owner) :=
+  uEv d.kinds (ctxsEvents fixed 0 d.ctxs)
+
+/-- two distinct write occurrences are compatible: different roots, or the same writer which is not an instance
+    output (every instance output counts as a driver of its own) -/
+def Compatible (a b : Nat × Owner) : Prop :=
+  a.1 = b.1 → a.2 = b.2 ∧ a.2.isInst = false ∧ b.2.isInst = false
+
+/-- SPEC (the first sentence of the property on the abstract design) -/
+structure UsageOk (fixed : Bool) (d : Design) : Prop where
+  /-- no input port is written by a context -/
+  noInputWritten : ∀ e ∈ ctxsEvents fixed 0 d.ctxs, e.2.write = true → kindOf d.kinds e.2.root ≠ .portIn
+  /-- no input port is the actual of an instance output (checked by the patched tree only) -/
+  noInputDriven : fixed = true → ∀ e ∈ instOuts 0 d.insts, kindOf d.kinds e.2 ≠ .portIn
+  /-- no root (whatever slice / element) is written from two contexts / instance outputs -/
+  singleWriter : (writeEvents fixed d).Pairwise Compatible
+  /-- no variable / temporary is used by two contexts -/
+  singleUser : (useEvents fixed d).Pairwise (fun a b => a.1 = b.1 → a.2 = b.2)
+
+end CohdlVerif.C07
+
+theorem CohdlVerif.C07.noConf_iff_compatible (a b : Nat × Owner) : NoConf a b ↔ Compatible a b := by
+  unfold NoConf Compatible
+  constructor
+  · intro h hk
+    obtain ⟨h1, h2⟩ := h hk
+    exact ⟨h1, h1 ▸ h2, h2⟩
+  · intro h hk
+    obtain ⟨h1, _, h3⟩ := h hk
+    exact ⟨h1, h3⟩
+
+theorem CohdlVerif.C07.mem_uEv_owner (kinds : List Kind) (evs : List (Owner × Access)) (h : ∀ e ∈ evs, e.1.isInst = false) :
+    ∀ x ∈ uEv kinds evs, x.2.isInst = false := by
+  intro x hx
+  simp only [uEv, List.mem_filterMap] at hx
+  obtain ⟨e, he, hx⟩ := hx
+  split at hx
+  · cases hx; exact h e he
+  · cases hx
+
+theorem C07.checkUsage_ok_iff_gen (fixed : Bool) (d : Design) : checkUsage fixed d = true ↔ UsageOk fixed d := by
+  have hown := ctxsEvents_owner fixed d.ctxs 0
+  have hinst := instOuts_owner d.insts 0
+  unfold checkUsage
+  constructor
+  · intro h
+    cases hc : checkEvents d.kinds ⟨[], []⟩ (ctxsEvents fixed 0 d.ctxs) with
+    | none => simp [hc] at h
+    | some st =>
+      simp only [hc] at h
+      obtain ⟨hb, hw, hu⟩ := (checkEvents_some d.kinds _ ⟨[], []⟩ st hown).1 hc
+      rw [checkInstOuts_eq fixed d.kinds _ _ hinst] at h
+      by_cases hib : (fixed && instInputBad d.kinds (instOuts 0 d.insts)) = true
+      · simp [hib] at h
+      · simp only [hib] at h
+        refine ⟨?_, ?_, ?_, ?_⟩
+        · intro e he hwr hk
+          simp only [inputBad, List.any_eq_false] at hb
+          exact hb e he (by simp [hwr, hk])
+        · intro hf e he hk
+          apply hib
+          simp only [hf, instInputBad, Bool.true_and, List.any_eq_true]
+          exact ⟨e, he, by simp [hk]⟩
+        · have : (ownFold [] (writeEvents fixed d)).isSome = true := by
+            simp only [writeEvents, ownFold_append]
+            simp only at hw
+            rw [hw]
+            exact h
+          exact ((ownFold_isSome _ _).1 this).2.imp (fun hab => (noConf_iff_compatible _ _).1 hab)
+        · have : (ownFold [] (useEvents fixed d)).isSome = true := by
+            simp only [useEvents]; simp only at hu; rw [hu]; rfl
+          exact ((ownFold_isSome _ _).1 this).2.imp (fun hab hk => (hab hk).1)
+  · rintro ⟨h1, h2, h3, h4⟩
+    have hW : (ownFold [] (writeEvents fixed d)).isSome = true :=
+      (ownFold_isSome _ _).2 ⟨by intro e _ o ho; simp at ho,
+        h3.imp (fun hab => (noConf_iff_compatible _ _).2 hab)⟩
+    have hU : (ownFold [] (useEvents fixed d)).isSome = true := by
+      refine (ownFold_isSome _ _).2 ⟨by intro e _ o ho; simp at ho, ?_⟩
+      refine List.Pairwise.imp_of_mem ?_ h4
+      intro a b _ hb hab hk
+      exact ⟨hab hk, mem_uEv_owner d.kinds _ hown b hb⟩
+    simp only [writeEvents, ownFold_append] at hW
+    cases hw : ownFold [] (wEv (ctxsEvents fixed 0 d.ctxs)) with
+    | none => simp [hw] at hW
+    | some w =>
+      simp only [hw, Option.bind_some] at hW
+      cases hu : ownFold [] (uEv d.kinds (ctxsEvents fixed 0 d.ctxs)) with
+      | none => simp [useEvents, hu] at hU
+      | some u =>
+        have hb : inputBad d.kinds (ctxsEvents fixed 0 d.ctxs) = false := by
+          simp only [inputBad, List.any_eq_false]
+          intro e he hbad
+          simp only [Bool.and_eq_true, beq_iff_eq] at hbad
+          exact h1 e he hbad.1 hbad.2
+        have hc := (checkEvents_some d.kinds _ ⟨[], []⟩ ⟨w, u⟩ hown).2 ⟨hb, hw, hu⟩
+        simp only [hc]
+        rw [checkInstOuts_eq fixed d.kinds _ _ hinst]
+        have hib : (fixed && instInputBad d.kinds (instOuts 0 d.insts)) = false := by
+          cases fixed
+          · rfl
+          · simp only [Bool.true_and, instInputBad, List.any_eq_false]
+            intro e he hk
+            exact h2 rfl e he (by simpa using hk)
+        simp only [hib, Bool.false_eq_true, if_false]
+        exact hW
+
+/-- the usage check of the patched tree accepts a design exactly when the property's first sentence allows it -/
+theorem C07.checkUsage_ok_iff (d : Design) : checkUsage true d = true ↔ UsageOk true d :=
+  C07.checkUsage_ok_iff_gen true d
+
+-- non-vacuity: a design with two contexts, an instance and a variable is accepted ...
+example : checkUsage true ⟨[.signal, .portIn, .portOut, .variable],
+    [⟨.seq, [⟨1, false, false⟩, ⟨0, true, false⟩, ⟨3, true, false⟩, ⟨3, false, false⟩]⟩, ⟨.conc, [⟨0, false, false⟩]⟩],
+    [⟨[0], [2]⟩]⟩ = true := by decide
+-- ... and each clause rejects: two contexts writing slices of root 0; an input port written; a variable in two
+-- contexts; an instance output onto a signal written by a context
+example : checkUsage true ⟨[.signal], [⟨.seq, [⟨0, true, false⟩]⟩, ⟨.conc, [⟨0, true, false⟩]⟩], []⟩ = false := by decide
+example : checkUsage true ⟨[.portIn], [⟨.seq, [⟨0, true, false⟩]⟩], []⟩ = false := by decide
+example : checkUsage true ⟨[.variable], [⟨.seq, [⟨0, true, false⟩]⟩, ⟨.seq, [⟨0, false, false⟩]⟩], []⟩ = false := by decide
+example : checkUsage true ⟨[.signal], [⟨.seq, [⟨0, true, false⟩]⟩], [⟨[], [0]⟩]⟩ = false := by decide
+
+/-! ### consequence: unique drivers in the emitted architecture -/
+
+theorem C07.usageOk_unique_driver (d : Design) (h : UsageOk true d) (r : Nat) : drivers (emit d) r ≤ 1 := by
+  unfold drivers
+  apply countP_le_one
+  refine List.Pairwise.imp_of_mem ?_ (emit_pairwise d)
+  intro u v hu hv hne hboth
+  apply hne
+  simp only [List.contains_eq_mem, decide_eq_true_eq] at hboth
+  have hW : ∀ w ∈ emit d, r ∈ w.targets → (r, w.owner) ∈ writeEvents true d := by
+    intro w hw hr
+    simp only [emit, List.mem_append] at hw
+    simp only [writeEvents, List.mem_append, List.mem_map]
+    rcases hw with hw | hw
+    · exact Or.inl (emitCtxs_target _ _ w hw r hr)
+    · exact Or.inr ⟨(w.owner, r), emitInsts_target _ _ w hw r hr, rfl⟩
+  have hsame := pairwise_same_owner (h.singleWriter.imp (fun hab hk => (hab hk).1))
+  exact hsame _ (hW u hu hboth.1) _ (hW v hv hboth.2) rfl
+
+/-- FULL STATEMENT (patched tree): an accepted design has at most one driver unit (process / concurrent block /
+    always block / instance port map) per root in the emitted architecture -/
+theorem C07.accepted_unique_driver (d : Design) (h : checkUsage true d = true) :
+    ∀ r, drivers (emit d) r ≤ 1 :=
+  fun r => C07.usageOk_unique_driver d ((C07.checkUsage_ok_iff d).1 h) r
+
+-- non-vacuity: an accepted design in which always block, body, a concurrent context and an instance each drive a root
+example : checkUsage true ⟨[.signal, .signal, .signal, .signal, .portIn],
+    [⟨.seq, [⟨0, true, true⟩, ⟨1, true, false⟩, ⟨0, false, false⟩]⟩, ⟨.conc, [⟨2, true, false⟩]⟩], [⟨[4], [3]⟩]⟩ = true := by decide
+
+/-- the witness of the defect: root 0 is assigned in `with cohdl.always:` and in the body of the same
+    sequential context (design_sketches/probes/c07_always_double_driver.py) -/
+def CohdlVerif.C07.alwaysWitness : Design :=
+  ⟨[.signal], [⟨.seq, [⟨0, true, true⟩, ⟨0, true, false⟩]⟩], []⟩
+
+/-- the statement `accepted -> unique driver` is FALSE for the mirror of the tree before
+    fixes/C07-always-block-separate-driver.patch: the witness is accepted (front-end rules and usage check) and
+    root 0 has two driver units -/
+theorem C07.accepted_unique_driver_fails_at :
+    accept false alwaysWitness = true ∧ drivers (emit alwaysWitness) 0 = 2 ∧ accept true alwaysWitness = false := by
+  decide
+
+/-- what does hold on the unpatched tree: the design is accepted by the patched check as well (i.e. no root is
+    written both in the always block and in the body of one context, no variable used in both, no input port
+    driven by an instance) -> unique drivers -/
+theorem C07.accepted_unique_driver_partial (d : Design) (_h : checkUsage false d = true)
+    (hsep : checkUsage true d = true) : ∀ r, drivers (emit d) r ≤ 1 :=
+  C07.accepted_unique_driver d hsep
+
+example : checkUsage false ⟨[.signal, .signal], [⟨.seq, [⟨0, true, true⟩, ⟨1, true, false⟩]⟩], []⟩ = true
+    ∧ checkUsage true ⟨[.signal, .signal], [⟨.seq, [⟨0, true, true⟩, ⟨1, true, false⟩]⟩], []⟩ = true := by decide
+
+/-! ### variables never leave their process -/
+
+theorem C07.variables_stay_in_process (d : Design) (h : accept true d = true) (r : Nat)
+    (hr : kindOf d.kinds r = .variable) :
+    users (emit d) r ≤ 1
+    ∧ (∀ u ∈ emit d, r ∈ u.refs → ∃ i, u.owner = .ctx i)
+    ∧ (∀ c ∈ d.ctxs, c.kind = .conc → ∀ a ∈ c.accs, a.root ≠ r) := by
+  simp only [accept, Bool.and_eq_true] at h
+  obtain ⟨hf, hc⟩ := h
+  have hok := (C07.checkUsage_ok_iff d).1 hc
+  simp only [frontend, Bool.and_eq_true, List.all_eq_true] at hf
+  obtain ⟨hfc, hfi⟩ := hf
+  have hproc : ∀ u ∈ emit d, r ∈ u.refs → ∃ i, u.owner = .ctx i := by
+    intro u hu hru
+    simp only [emit, List.mem_append] at hu
+    rcases hu with hu | hu
+    · obtain ⟨c, hcm, k, hk | hk⟩ := emitCtxs_cases _ _ u hu
+      · exfalso
+        have := hfc c hcm
+        simp only [ctxFrontend, Bool.and_eq_true, List.all_eq_true] at this
+        obtain ⟨⟨⟨_, hal⟩, _⟩, _⟩ := this
+        rw [hk.2, List.mem_map] at hru
+        obtain ⟨a, ha, hroot⟩ := hru
+        have := hal a ha
+        simp [hroot, hr] at this
+      · exact ⟨k, hk.1⟩
+    · exfalso
+      obtain ⟨b, hb, href⟩ := emitInsts_cases _ _ u hu
+      have := hfi b hb r (href ▸ hru)
+      simp [hr] at this
+  refine ⟨?_, hproc, ?_⟩
+  · unfold users
+    apply countP_le_one
+    refine List.Pairwise.imp_of_mem ?_ (emit_pairwise d)
+    intro u v hu hv hne hboth
+    apply hne
+    simp only [List.contains_eq_mem, decide_eq_true_eq] at hboth
+    have hU : ∀ w ∈ emit d, r ∈ w.refs → (r, w.owner) ∈ useEvents true d := by
+      intro w hw hrw
+      obtain ⟨i, hi⟩ := hproc w hw hrw
+      simp only [emit, List.mem_append] at hw
+      rcases hw with hw | hw
+      · obtain ⟨a, ha, hroot⟩ := emitCtxs_ref _ _ w hw r hrw
+        simp only [useEvents, uEv, List.mem_filterMap]
+        exact ⟨(w.owner, a), ha, by simp [hroot, hr, Kind.isVarLike]⟩
+      · have := (emitInsts_idx _ _ w hw).1
+        rw [hi] at this
+        cases this
+    exact pairwise_same_owner hok.singleUser _ (hU u hu hboth.1) _ (hU v hv hboth.2) rfl
+  · intro c hcm hkind a ha hroot
+    have := hfc c hcm
+    simp only [ctxFrontend, Bool.and_eq_true, List.all_eq_true, Bool.or_eq_true] at this
+    obtain ⟨⟨⟨hvc, _⟩, _⟩, _⟩ := this
+    rcases hvc with hvc | hvc
+    · simp [hkind] at hvc
+    · have := hvc a ha
+      simp [hroot, hr] at this
+
+-- non-vacuity: an accepted design with a variable written and read in one sequential context
+example : accept true ⟨[.variable, .portIn, .portOut],
+    [⟨.seq, [⟨1, false, false⟩, ⟨0, true, false⟩, ⟨0, false, false⟩, ⟨2, true, false⟩]⟩], []⟩ = true := by decide
+-- and the rejected placements: variable read in an always block, in a concurrent context, in two contexts, as actual
+example : accept true ⟨[.variable, .portOut], [⟨.seq, [⟨0, false, true⟩, ⟨1, true, true⟩]⟩], []⟩ = false := by decide
+example : accept false ⟨[.variable, .portOut], [⟨.seq, [⟨0, false, true⟩, ⟨1, true, true⟩]⟩], []⟩ = true := by decide
+example : accept true ⟨[.variable, .portOut], [⟨.conc, [⟨0, false, false⟩, ⟨1, true, false⟩]⟩], []⟩ = false := by decide
+example : accept true ⟨[.variable, .portOut], [⟨.seq, [⟨0, true, false⟩]⟩], [⟨[0], [1]⟩]⟩ = false := by decide
